@@ -4,14 +4,15 @@
 # tree must report the violation again, replaying it on the unchanged tree must pass.
 d="$1"; prop=${d%%-*}
 export GOFLAGS=-mod=mod GOPROXY=off GOSUMDB=off GOTOOLCHAIN=local
-cd /tmp/mw || exit 2
+MW=${MW:-/tmp/mw}; VSNAP=${VSNAP:-/tmp/vsnap}; MWORK=${MWORK:-/tmp/mwork}
+cd $MW || exit 2
 git checkout -q -f --detach "$(git -C /repo rev-parse HEAD)"; git clean -fdq
 git apply /verif/seeded/$d/patch.diff || { echo "$d: patch does not apply"; exit 3; }
-rm -rf /tmp/mwork/replays
-r1=$(cd /tmp/vsnap && VERIF_REPO=/tmp/mw VERIF_WORK=/tmp/mwork timeout 2400 ./check $prop quick 2>&1 | grep -E "^VIOLATION" | head -1)
+rm -rf $MWORK/replays
+r1=$(cd $VSNAP && VERIF_REPO=$MW VERIF_WORK=$MWORK timeout 2400 ./check $prop quick 2>&1 | grep -E "^VIOLATION" | head -1)
 f=$(echo "$r1" | sed -n 's/.*replay=\([^ ]*\).*/\1/p')
 if [ -z "$f" ]; then echo "$d: quick check of $prop silent on the changed tree"; git checkout -q -f -- .; exit 0; fi
-r2=$(cd /tmp/vsnap && VERIF_REPO=/tmp/mw VERIF_WORK=/tmp/mwork timeout 2400 ./check $prop --replay /tmp/mwork/$f 2>&1 | grep -cE "^VIOLATION")
+r2=$(cd $VSNAP && VERIF_REPO=$MW VERIF_WORK=$MWORK timeout 2400 ./check $prop --replay $MWORK/$f 2>&1 | grep -cE "^VIOLATION")
 git checkout -q -f -- .; git clean -fdq
-r3=$(cd /tmp/vsnap && VERIF_REPO=/tmp/mw VERIF_WORK=/tmp/mwork2 timeout 2400 ./check $prop --replay /tmp/mwork/$f 2>&1 | grep -cE "^VIOLATION")
+r3=$(cd $VSNAP && VERIF_REPO=$MW VERIF_WORK=${MWORK}r timeout 2400 ./check $prop --replay $MWORK/$f 2>&1 | grep -cE "^VIOLATION")
 echo "$d: first=[$(echo $r1 | cut -c1-80)] replay-on-changed-tree violations=$r2 replay-on-clean-tree violations=$r3"
